@@ -14,6 +14,17 @@ CHECKS = {
         'note': _COMMON_NOTE + 'The string path (Humdrum spelling) goes through the C16 codec model.',
         'technique': 'Coq proof (vm_compute sweep + arithmetic lifting) over translator-regenerated tables; exhaustive model/impl correspondence',
     },
+    'C11': {
+        'text': 'Theorems in coq/props/C11.v: the hierarchy literal regenerated from tokens.py equals the tree parsed from '
+                'README.md, is a forest containing each of the 37 categories once; is_child/children/nodes/leaves agree with '
+                'the inductive descendant relation of that tree (37x37 facts by vm_compute, lifted to all categories); valid '
+                'and match are characterised for include/exclude lists of ANY length (induction-free list lemmas over the '
+                'closure). Correspondence: every query vs the extracted model on all categories, all pairs, all 704x704 '
+                'small include/exclude pairs (thorough; a fifth of the include sets in quick) and random larger sets in '
+                'every argument shape.',
+        'note': _COMMON_NOTE + 'Python sets are modelled as lists and compared as sets (membership bit-vectors over the enum order).',
+        'technique': 'Coq proof (finite vm_compute facts lifted by forallb_forall + list lemmas) over translator-regenerated hierarchy and README tree; exhaustive model/impl correspondence',
+    },
     'C16': {
         'text': 'Theorems in coq/props/C16.v: import (spell l a o) yields (l,a,o), export returns the spelling and leaves '
                 'the pitch unchanged, for 7 letters x alterations -3..3 x EVERY octave (nat repetition count, induction via '
